@@ -120,16 +120,25 @@ func main() {
 					default:
 						return true
 					}
-					if call == nil || len(call.Args) != 0 {
+					if call == nil {
 						return true
 					}
 					sel, ok := call.Fun.(*ast.SelectorExpr)
 					if !ok {
 						return true
 					}
+					if len(call.Args) != 0 && sel.Sel.Name != "Send" && sel.Sel.Name != "SendMsg" {
+						return true
+					}
 					x := string(src[fset.Position(sel.X.Pos()).Offset:fset.Position(sel.X.End()).Offset])
 					pos := fset.Position(call.Pos())
 					st := fmt.Sprintf("%s:%d", rel, pos.Line)
+					if (sel.Sel.Name == "Send" || sel.Sel.Name == "SendMsg") && !deferred && strings.HasSuffix(x, ".Responder") {
+						// a delivery to another connection: an optional scheduling point (enabled per run), so that a
+						// schedule can separate "who was picked" from "who is told" when no lock is held in between
+						edits = append(edits, edit{pos.Offset, pos.Offset, fmt.Sprintf("verifsched.Point(%q); ", st)})
+						return true
+					}
 					switch sel.Sel.Name {
 					case "Lock", "RLock":
 						if deferred {
